@@ -69,7 +69,7 @@ func c17GroupOneWrite(c *Check, a *Anchors) {
 	}
 	fn := c.P.SSAFunc(fb)
 	c.Fn(fb)
-	pe := &PathEnum{Fn: fn, MaxRevisit: 1, Event: func(in ssa.Instruction) (string, string) {
+	pe := &PathEnum{Fn: fn, MaxRevisit: revisit(), Event: func(in ssa.Instruction) (string, string) {
 		if call, ok := in.(*ssa.Call); ok && writesToField(call.Common(), "groupWriter", "writer") {
 			return "write-shared", "call"
 		}
@@ -120,7 +120,7 @@ func c17GroupErrorOnly(c *Check, a *Anchors) {
 	}
 	fn := c.P.SSAFunc(closer)
 	c.Fn(closer)
-	pe := &PathEnum{Fn: fn, MaxRevisit: 1, Event: func(in ssa.Instruction) (string, string) {
+	pe := &PathEnum{Fn: fn, MaxRevisit: revisit(), Event: func(in ssa.Instruction) (string, string) {
 		if call, ok := in.(*ssa.Call); ok {
 			if f := call.Common().StaticCallee(); f != nil && f.Name() == "close" {
 				return "emit", "call"
@@ -302,7 +302,7 @@ func c17PrefixLineComplete(c *Check, a *Anchors) {
 	}
 	fn := c.P.SSAFunc(fb)
 	c.Fn(fb)
-	pe := &PathEnum{Fn: fn, MaxRevisit: 1, Event: func(in ssa.Instruction) (string, string) {
+	pe := &PathEnum{Fn: fn, MaxRevisit: revisit(), Event: func(in ssa.Instruction) (string, string) {
 		if call, ok := in.(*ssa.Call); ok {
 			if f := call.Common().StaticCallee(); f != nil {
 				switch f.Name() {
